@@ -63,6 +63,14 @@ func VerifC13Keys() {
 		k := []rune{vaxis.KeyEnter, vaxis.KeyTab, vaxis.KeyBackspace, vaxis.KeyEsc}[zzverif.Choose("named", 4)]
 		key = vaxis.Key{Keycode: k}
 	}
+	// Caps Lock / Num Lock may be on: they are not part of the chord and do not change how
+	// the key is written
+	locks := vaxis.ModifierMask(0)
+	if key.Text == "" {
+		locks = vaxis.ModifierMask(zzverif.Uint8("locks")) & (vaxis.ModCapsLock | vaxis.ModNumLock)
+	}
+	chord := key.Modifiers
+	key.Modifiers |= locks
 	deckpam, decckm := zzverif.Bool("deckpam"), zzverif.Bool("decckm")
 	// through the widget's real entry point: Update consults the child's modes and writes
 	// the encoding to the pty
@@ -80,13 +88,13 @@ func VerifC13Keys() {
 	zzverif.Assert(len(seqs) == 1, "one-sequence-for-one-key")
 	if len(seqs) == 1 {
 		got := vaxis.VerifDecodeKey(seqs[0])
-		zzverif.Assert(got.Matches(key.Keycode, key.Modifiers), "decoded-key-matches-original-chord")
+		zzverif.Assert(got.Matches(key.Keycode, chord), "decoded-key-matches-original-chord")
 		switch key.Keycode {
 		case vaxis.KeyUp, vaxis.KeyDown, vaxis.KeyRight, vaxis.KeyLeft, vaxis.KeyHome, vaxis.KeyEnd:
 			// the child's cursor-key mode (DECCKM) selects SS3 vs CSI for the unmodified
 			// cursor keys: the four arrows, Home and End (xterm ctlseqs, "PC-Style Function Keys")
 			_, isSS3 := seqs[0].(ansi.SS3)
-			if key.Modifiers == 0 {
+			if chord == 0 {
 				zzverif.Assert(isSS3 == decckm, "decckm-selects-ss3")
 			}
 		}
@@ -190,6 +198,16 @@ func VerifC13Modes() {
 	}
 	want := before
 	want[which] = set
+	// a second mode in the same DECSET / DECRST sequence (CSI ? a ; b h)
+	if which < 7 && zzverif.Bool("twoModes") {
+		other := zzverif.Choose("otherMode", 7)
+		if set {
+			vt.csi("?h", [][]int{{numbers[which]}, {numbers[other]}})
+		} else {
+			vt.csi("?l", [][]int{{numbers[which]}, {numbers[other]}})
+		}
+		want[other] = set
+	}
 	zzverif.Assert(get() == want, "mode-request-changes-exactly-that-mode")
 	if which < 7 {
 		vt.csi("?$p", [][]int{{numbers[which]}})
